@@ -41,6 +41,9 @@ class SchedRun:
         self.kind = cfg['kind']
         self.rate = cfg['rate']
         self.table = {int(k): v for k, v in cfg['table'].items()}
+        if cfg.get('table_order'):
+            # JSON object order is kept, but be explicit: the declaration order of the classes matters
+            self.table = {int(k): self.table[int(k)] for k in cfg['table_order']}
         f2c = cfg.get('flow2class')
         self.f2c_map = {int(k): v for k, v in f2c.items()} if f2c else None
         flow2class = (lambda f: self.f2c_map[f]) if self.f2c_map else None
@@ -99,7 +102,7 @@ class SchedRun:
             if not self.burst[k]:
                 yield env.timeout(sym_num('g%d' % k, self.sort, 0))
                 group += 1
-            size = sym_int('s%d' % k, 1, self.cfg.get('smax'))
+            size = sym_int('s%d' % k, self.cfg.get('smin', 1), self.cfg.get('smax'))
             pkt = mk_packet(self.Packet, env.now, size, k, flow_id=self.flows[k])
             self.action += 1
             self.arrivals.append((pkt, env.now, group))
